@@ -164,6 +164,16 @@ func trackCase(c *vlib.Ctx, i int, r *vlib.Rand) {
 		conf.VerifReloadNow()
 		hist = append(hist, editRec{Op: "create-after-start", MtimeMs: times[0].UnixMilli(), Reloaded: true, Content: clipStr(content, 2000)})
 		c.Count("histories_file_created_after_start", 1)
+		// the file came into being after the object was made: that is a change like any other,
+		// the registered observers must have been called by the poll that loaded it
+		for k, o := range observers {
+			if calls, _ := o.snapshot(); calls == 0 {
+				c.Fail("FileConfig:observer-not-notified/file-created-after-start", fmt.Sprintf("the configuration object was made while the file did not exist; the file was then created and a poll loaded it, but observer %d was not called", k),
+					map[string]interface{}{"timeline": tl, "history": hist, "observers": nObs})
+			} else {
+				c.Count("observer_notifications_after_late_creation", 1)
+			}
+		}
 	} else {
 		writeFileAt(path, content, times[0])
 		conf = newConf(dir, conffile.WithConfigObserver(co))
